@@ -303,7 +303,7 @@ pub fn check(tier: &str) -> i32 {
     let depth: usize = std::env::var("RSV_DEPTH").ok().and_then(|s| s.parse().ok()).unwrap_or(if tier == "thorough" { 5 } else { 3 });
     let arena_ids: Vec<usize> = match std::env::var("RSV_ARENAS") {
         Ok(a) => a.split(',').filter_map(|x| x.parse().ok()).collect(),
-        Err(_) => vec![0, 1, 2, 3, 4, 5, 6],
+        Err(_) => vec![0, 1, 2, 3, 4, 5, 6, 7],
     };
     let variants: Vec<bool> = if tier == "thorough" { vec![true, false] } else { vec![true] };
     // hash seeds of the candidate generation (what the neighbourhood offers depends on hash-map orders)
@@ -320,7 +320,7 @@ pub fn check(tier: &str) -> i32 {
         for &(limited, seed) in &variants.iter().flat_map(|l| seeds.iter().map(move |s| (*l, *s))).collect::<Vec<_>>() {
             GEN_SEED.store(seed, std::sync::atomic::Ordering::SeqCst);
             // smaller arenas go one step deeper in the thorough tier
-            let depth = if tier == "thorough" && std::env::var("RSV_DEPTH").is_err() && matches!(i, 1 | 3 | 6) { depth + 1 } else { depth };
+            let depth = if tier == "thorough" && std::env::var("RSV_DEPTH").is_err() && matches!(i, 1 | 3 | 6 | 7) { depth + 1 } else { depth };
             // the second hash seed of the thorough tier only serves to show that the graph does not depend on hash orders: walk length 3
             let depth = if seed != seeds[0] && std::env::var("RSV_DEPTH").is_err() { 3 } else { depth };
             let mut st = Stats::default();
